@@ -272,9 +272,72 @@ def run_writers(ctx):
             ctx.fail('spec', 'writers', case, f'{wcls.__name__}: {type(e).__name__}: {e}', 'raised:' + wcls.__name__)
 
 
+def run_trench_writers(ctx):
+    """Spec-only stream on real dug columns: a trench writer built from a bare column or a list, then appended to / extended (also
+    with a rejected call in between): it holds exactly the columns it was given, in order, by identity; its trench list is exactly
+    their trenches; and the columns themselves are what they were (a writer never grows or shrinks a column it was given)."""
+    import numpy as np
+    from femto.trench import TrenchColumn
+    from femto.writer import TrenchWriter
+    rng = ctx.rng
+
+    def col(y0):
+        with core.quiet():
+            tc = TrenchColumn(x_center=2.0, y_min=y0, y_max=y0 + 1.0, length=0.3, nboxz=1, h_box=0.02, deltaz=0.01, delta_floor=0.02)
+            tc.dig_from_array([np.array([[-1.0, y0 + 0.25 * k], [5.0, y0 + 0.25 * k]]) for k in range(1, rng.choice([3, 4]))])
+        return tc
+    for i in range(ctx.n(12, 120)):
+        twins = rng.random() < 0.5
+        y = [0.0, 0.0, 0.0] if twins else [0.0, 2.0, 4.0]       # twins: distinct objects with equal parameters and equal blocks
+        c1, c2, c3 = col(y[0]), col(y[1]), col(y[2])
+        sizes = {id(c_): len(list(c_)) for c_ in (c1, c2, c3)}
+        start = rng.choice(['bare', 'list1', 'list2'])
+        ops = [rng.choice(['append', 'extend', 'extend_bad']) for _ in range(rng.randint(1, 3))]
+        case = {'start': start, 'ops': ops, 'twins': twins}
+        ctx.seen({'stream': 'trench_writers', **case}, True)
+        ctx.count('trench_writers.start', start)
+        held = [c1] if start != 'list2' else [c1, c2]
+        pool = [c_ for c_ in (c2, c3) if all(c_ is not h_ for h_ in held)]
+        bad = None
+        try:
+            with core.quiet():
+                W = TrenchWriter(c1 if start == 'bare' else list(held), dirname='T', filename='t.pgm')
+                for op in ops:
+                    nxt = pool[0] if pool else c3
+                    if op == 'append':
+                        W.append(nxt)
+                        held.append(nxt)
+                    elif op == 'extend':
+                        W.extend([nxt])
+                        held.append(nxt)
+                    else:
+                        try:
+                            W.extend([nxt, 3.14])
+                        except TypeError:
+                            pass
+                        if any(o is nxt for o in W.obj_list[len(held):]):
+                            held.append(nxt)      # a rejected call may leave the accepted prefix in place
+                    if pool and any(nxt is h_ for h_ in held):
+                        pool = pool[1:]
+        except Exception as e:  # noqa
+            bad = (f'{type(e).__name__}: {e}', 'trench-writer:raised')
+        if not bad:
+            got = [id(o) for o in W.obj_list]
+            if got != [id(h_) for h_ in held]:
+                bad = (f'the writer holds {len(got)} columns that are not the {len(held)} given ones in order (by identity)', 'trench-writer:holds')
+            elif [id(t_) for t_ in W.trenches] != [id(t_) for h_ in held for t_ in h_]:
+                bad = ('the writer\'s trench list is not the trenches of the columns it holds, in order', 'trench-writer:trenches')
+            elif any(len(list(c_)) != sizes[id(c_)] for c_ in (c1, c2, c3)):
+                bad = (f'a column given to the writer changed its number of trenches: {[len(list(c_)) for c_ in (c1, c2, c3)]} vs {list(sizes.values())}',
+                       'trench-writer:column-changed')
+        if bad:
+            ctx.fail('spec', 'trench_writers', case, bad[0], bad[1])
+
+
 def run(ctx):
     run_history(ctx)
     run_writers(ctx)
+    run_trench_writers(ctx)
 
 
 def replay(ctx, payload):
